@@ -51,7 +51,9 @@ Example C16_guard_nonvacuous :
      SubBalance 11%N 100; SetNonce 11%N 1; Finalise; BlockCommit; GetBalance 11%N; GetState 11%N 1%N; Snapshot;
      AddBalance 14%N 0; Finalise; Exist 14%N;
      CreateAccount 15%N; SetNonce 15%N 1; Snapshot; SetCode 15%N 2%N; GetCodeSize 15%N; RevertToSnapshot 0; GetCodeHash 15%N;
-     SetCode 15%N 3%N; Finalise; GetCode 15%N; GetCodeHash 15%N; Suicide 15%N; Finalise; Exist 15%N; GetCode 15%N] = true.
+     SetCode 15%N 3%N; Finalise; GetCode 15%N; GetCodeHash 15%N; Suicide 15%N; Finalise; Exist 15%N; GetCode 15%N;
+     Snapshot; AddLog 11%N 1%N; AlAddSlot 11%N 2%N; Snapshot; AddLog 12%N 2%N; AlAddAddr 12%N; GetLogs; AlHasSlot 11%N 2%N;
+     RevertToSnapshot 1; GetLogs; AlHasAddr 12%N; AlHasAddr 11%N; RevertToSnapshot 0; AlHasSlot 11%N 2%N; GetLogs; Finalise; GetLogs] = true.
 Proof. vm_compute. reflexivity. Qed.
 
 (* the full statement (no guard) is false of the faithful adapter model; each witness is replayed
